@@ -3,6 +3,7 @@ import importlib
 import math
 import random
 
+from vpm import history
 from vpm.oracles import sphere as sp
 from vpm.oracles import twobody as tb
 
@@ -57,7 +58,7 @@ POINTS = {
                                 "if abs(e - 1.0) < d:"),
 }
 REQUIRED_POINTS = list(POINTS)
-REQUIRED_CLAUSES = ["planet.direction", "planet.elongation",
+REQUIRED_CLAUSES = [history.CLAUSE, "planet.direction", "planet.elongation",
                     "planet.elongation-range", "epoch-not-shifted",
                     "pluto.direction", "minor.direction",
                     "minor.elongation", "minor.heliocentric"]
@@ -237,6 +238,14 @@ def case_minor(mon, q, e, inc, node, argp, T, jde):
         m2 = Minor(2.2091404 * (1 - 0.8502196), 0.8502196, Angle(11.94524),
                    Angle(334.75006), Angle(186.23352), Epoch(2448193.04502))
         m2.geocentric_position(Epoch(2448170.5))
+        # ... and while that other object is alive and differently loaded,
+        # the first one still answers as before
+        r1 = m.geocentric_position(Epoch(jde))
+        mon.check("minor.independent-of-other-instances",
+                  r1[0]() == ra() and r1[1]() == dec() and r1[2]() == psi(),
+                  lambda: dict(case, alone=[ra(), dec(), psi()],
+                               with_another_instance=[r1[0](), r1[1](),
+                                                      r1[2]()]))
         m2.set(q, e, Angle(inc), Angle(node), Angle(argp), Epoch(T))
         r2 = m2.geocentric_position(Epoch(jde))
         same = (r2[0]() == ra() and r2[1]() == dec() and r2[2]() == psi())
@@ -284,7 +293,7 @@ def key_minor(e, err):
     return None
 
 
-CASES = {"planet": case_planet, "pluto": case_pluto, "minor": case_minor}
+CASES = {"history": history.case, "planet": case_planet, "pluto": case_pluto, "minor": case_minor}
 
 
 def gen_minor(rng):
@@ -340,6 +349,7 @@ def near_syzygy_epochs(planet, rng, n):
 
 
 def run(mon, spec):
+    history.run_cases(mon, ID, spec)
     if not (sp.self_check() and tb.self_check()):
         raise RuntimeError("oracle self-check failed")
     rng = random.Random(hash((spec["seed"], spec["name"])) & 0xFFFFFFFF)
